@@ -7,7 +7,25 @@ func (c *LimitParallelRequests) VerifSizes() (queues int, waiters int, processed
 	for _, q := range c.endpointQueues.CopyData() {
 		queues++
 		waiters += len(q.orderedRequest)
-		processed += q.processedCounter
+		processed += verifInt(&q.processedCounter)
 	}
 	return
+}
+
+// verifInt reads a counter whether it is a plain integer or an atomic one (the accessor must keep compiling
+// when the representation of the counter changes).
+func verifInt(p any) int64 {
+	switch x := p.(type) {
+	case *int64:
+		return *x
+	case *int:
+		return int64(*x)
+	case *int32:
+		return int64(*x)
+	case interface{ Load() int64 }:
+		return x.Load()
+	case interface{ Load() int32 }:
+		return int64(x.Load())
+	}
+	panic("verif: unknown counter representation")
 }
